@@ -1,9 +1,68 @@
 import Driver.Util
+import MpcVerif.Model.Equiv
+import MpcVerif.Model.Levels
 
 namespace Drv.C09
+open Mpc Drv
 
-/-- Line-protocol handler of property C09 (stub). -/
-def handle (_args : List String) : String := "bad-op"
+def parseNats (s : String) : Option (Array Nat) :=
+  if s == "-" then some #[] else ((s.splitOn ",").mapM String.toNat?).map List.toArray
+
+def gateStr (g : Gate) : String :=
+  let c := match g.op with
+    | .xor => "x" | .xnor => "n" | .and => "a" | .or => "o" | .inv => "i"
+  s!"{c}{g.in0}.{g.in1}.{g.out}"
+
+def gatesStr (gs : List Gate) : String :=
+  if gs.isEmpty then "-" else ";".intercalate (gs.map gateStr)
+
+def natsStr (l : List Nat) : String :=
+  if l.isEmpty then "-" else ",".intercalate (l.map toString)
+
+/-- efficient version of `strictLevels` for the driver (array of producer
+levels); agreement with the specification version is not needed: it is only
+reported. -/
+def strictFast (c : Circuit) (l : List (Gate × Nat)) : Bool :=
+  let prod : Array (Option Nat) := l.foldl (fun a p => a.setIfInBounds p.1.out (some p.2))
+    (Array.replicate c.numWires none)
+  l.all fun a => a.1.ins.all fun w =>
+    decide (w < c.nIn) || (match prod.getD w none with | some lh => decide (lh < a.2) | none => false)
+
+/--
+* `pair <tag> <nw> <nin> <nout> <gates> <nw'> <nin'> <nout'> <gates'> <witC> <witC'> <x,x,...>`
+  → `chk=<diag>;c=<C.compute x ...>;c2=<C'.compute x ...>`
+* `lvl <tag> <gmw> <nw> <nin> <nout> <gates>` → `lv=<levels>;max=<n>;width=<n>`
+* `sort <tag> <kind> <nw> <nin> <nout> <gates> <levels> <x>` → `strict=<b>;topo=<b>;g=<sorted gates>;c=<compute x>`
+  (`topo`: the sorted list is single-assignment and topologically ordered, decided by `absRun`)
+  (kind `c` = Compile's sort, `g` = gmw schedule)
+-/
+def handle (args : List String) : String :=
+  match args with
+  | ["pair", _tag, nw, nin, nout, gates, nw', nin', nout', gates', w1, w2, xs] =>
+    match parseCircuit nw nin nout gates, parseCircuit nw' nin' nout' gates', parseNats w1, parseNats w2 with
+    | some c, some c', some w1, some w2 =>
+      let diag := checkRefinesDiag c c' w1 w2
+      let xl := if xs == "-" then [] else (xs.splitOn ",").map parseBits
+      let o1 := ",".intercalate (xl.map fun x => bitsStr (c.compute x))
+      let o2 := ",".intercalate (xl.map fun x => bitsStr (c'.compute x))
+      s!"chk={diag};c={o1};c2={o2}"
+    | _, _, _, _ => "bad-op"
+  | ["lvl", _tag, gmw, nw, nin, nout, gates] =>
+    match parseCircuit nw nin nout gates with
+    | some c =>
+      let r := c.assignLevels (gmw == "1")
+      s!"lv={natsStr r.1};max={r.2};width={maxWidth c.numWires r.1}"
+    | none => "bad-op"
+  | ["sort", _tag, kind, nw, nin, nout, gates, lv, x] =>
+    match parseCircuit nw nin nout gates, parseNats lv with
+    | some c, some lv =>
+      let l := c.gates.zip lv.toList
+      if l.length != c.gates.length then "bad-op" else
+      let s := if kind == "c" then compileSort l else gmwSchedule l
+      let c2 : Circuit := { c with gates := s.map (·.1) }
+      s!"strict={strictFast c l};topo={(c2.absRun #[]).isSome};g={gatesStr (s.map (·.1))};c={bitsStr (c2.compute (parseBits x))}"
+    | _, _ => "bad-op"
+  | _ => "bad-op"
 
 end Drv.C09
 
